@@ -65,7 +65,7 @@ def replay(case):
 
 def bounded(seed, tier):
     rnd = random.Random(seed); fails = []; ev = 0
-    for t in range(60 if tier == 'quick' else 800):
+    for t in range(60 if tier == 'quick' else 300):
         for kind in ('ANOVA', 'NICV', 'SNR'):
             traces, data, parts, splits = rand_case(rnd); prec = rnd.choice(['float32', 'float64']); ev += 1
             if parts is None: parts = list(range(int(data.max()) + 1))
